@@ -1294,9 +1294,15 @@ func TestExhaustiveText(t *testing.T) {
 		if !ev.Thorough() && len(toks) > 300 {
 			tstep = 3
 		}
-		for i := 0; i < len(toks); i += tstep {
-			count += 3
+		for i := 0; i < len(toks); i++ {
+			// truncation before every token in both tiers (an input that ends right after an operator, a sign, a `::`, an
+			// opening quote ... is where look-ahead code reads past the end); delete / double every tstep-th token
+			count++
 			do(f, []byte(strings.Join(toks[:i], "")), fmt.Sprintf("representative %s truncated before token %d", f, i))
+			if i%tstep != 0 {
+				continue
+			}
+			count += 2
 			do(f, []byte(strings.Join(toks[:i], "")+strings.Join(toks[i+1:], "")), fmt.Sprintf("representative %s without token %d (%q)", f, i, toks[i]))
 			do(f, []byte(strings.Join(toks[:i+1], "")+strings.Join(toks[i:], "")), fmt.Sprintf("representative %s with token %d doubled", f, i))
 		}
